@@ -488,6 +488,25 @@ def C08_readyTracks (s : State) : Bool :=
     | .basic => kv.2.base == s.info.baseDenom
     | .pending => kv.2.base != s.info.baseDenom
 
+/-- approver-supplied amount recorded for the ask under `id` (0 when the ask is absent or not
+    approved) -/
+def recordedApproverAmount (s : State) (id : String) : Nat :=
+  match s.asks.get? id with
+  | some a => (match a.cls with | .ready _ c => c.amount | _ => 0)
+  | none => 0
+
+/-- C08 (the escrow held for the approver tracks the recorded amount): an accepted cancel /
+    expire / reject of an approved ask credits its approver, in the approver-supplied
+    denomination, with exactly the decrease of the recorded approver amount -/
+def C08_releaseOK (contract : String) (s : State) (id : String) (r : Response) (s' : State) : Bool :=
+  match s.asks.get? id with
+  | some a =>
+    (match a.cls with
+     | .ready ap conv =>
+       credit contract r.msgs ap conv.denom == conv.amount - recordedApproverAmount s' id
+     | _ => true)
+  | none => true
+
 /-! ## C09 fee exactness -/
 
 /-- `held` is the integer nearest to `F·q/Q`; at an exact half-unit tie either neighbour -/
